@@ -210,7 +210,7 @@ def copy_field_kinds(ctx: Ctx, I: Interp, rule: str = "C08.copy") -> None:
     ctx.min_count("Tag.__copy__ paths", n, 1)
 
 
-def tag_tagify_shape(ctx: Ctx, I: Interp, rule: str = "C08.copy") -> None:
+def tag_tagify_shape(ctx: Ctx, I: Interp, rule: str = "C08.copy", fields: Any = None) -> None:
     """Tag.tagify(): the result is the copy with its child list expanded and nothing else changed (name, attributes and the
     whitespace flag of the copy are those of the original on every path)."""
     prog = ctx.prog
@@ -233,12 +233,22 @@ def tag_tagify_shape(ctx: Ctx, I: Interp, rule: str = "C08.copy") -> None:
         s = l.run.__dict__["s"]
         v = l.value
         stores = [e for e in l.effects if e.kind in ("store_attr", "del_attr") and e.target is v]
-        other = [e for e in stores if e.key != "children"]
+        def _same_field(e: Any) -> bool:
+            # cp.f = self.f / cp.f = cp.f: the field keeps its value
+            ao = (getattr(e.value, "meta", None) or {}).get("attr_of") if isinstance(e.value, SObj) else None
+            if e.kind == "store_attr" and isinstance(e.value, SBool) and isinstance(e.value.atom, tuple) and e.value.atom[:1] == ("attr",) \
+                    and e.value.atom[2] == e.key and e.value.atom[1] in (s.uid, getattr(v, "uid", None)):
+                return True
+            return e.kind == "store_attr" and ao is not None and ao[1] == e.key and (ao[0] is s or ao[0] is v)
+        other = [e for e in stores if e.key != "children" and (fields is None or e.key in fields) and not _same_field(e)]
         labels = [str(lbl) for _, lbl in l.atoms][:3]
-        ctx.check(not other, rule, "Tag.tagify changes nothing of the copy besides its child list", where,
+        ctx.check(not other, rule, "Tag.tagify changes nothing of the copy besides its child list" if fields is None else
+                  f"Tag.tagify leaves {sorted(fields)} of the copy as they are", where,
                   f"path {labels}: stores {[e.key for e in stores]}",
                   f"Tag.tagify sets `{other[0].key if other else ''}` on the copy (path {labels}): the tree that render()/str() lay out differs from the original "
                   f"in more than the expansion of its tagifiable children", witness="str(span('a', div('b'))) vs span('a', div('b')).get_html_string()")
+        if fields is not None:
+            continue
         ch = [e for e in stores if e.key == "children"]
         okc = len(ch) == 1 and isinstance(ch[0].value, (SObj, SOpaque)) and _q_call(ch[0].value).endswith("TagList.tagify")
         ctx.check(okc, rule, "the copy's children are <children>.tagify()", where, f"children := {short(ch[0].value) if ch else None}",
